@@ -83,6 +83,17 @@ class OrphanShim:
         return self._ms[0].lattice
 
 
+class KeepShim(OrphanShim):
+    """Stand-in for an orphan when the library version has no public ``Concept.lattice``: the context is kept."""
+
+    def __init__(self, ctx):
+        self.__dict__["_c"] = ctx
+
+    @property
+    def lattice(self):
+        return self._c.lattice
+
+
 def _positions(labels, pos):
     return [pos.get(x, -1) for x in labels]
 
@@ -841,6 +852,8 @@ def drive_orphans(rec, table, b, families, rng, keep=False):
 
     ms = rec.members
     N = len(ms)
+    if not isinstance(rec.ctx, OrphanShim) and getattr(ms[0], 'lattice', None) is not rec.ctx.lattice:
+        return          # this version does not expose Concept.lattice: lattice-level calls cannot be made from a member
     rec.b = b
     rec.ev('ctx.new', n=table.n, m=table.m, rows=table.rows, tag=table.tag + ':orphaned-concepts')
     if not isinstance(rec.ctx, OrphanShim):
